@@ -386,3 +386,118 @@ func GenInject(rt *rapid.T) InjectCase {
 	}
 	return c
 }
+
+// ---------------------------------------------------------------------------------------
+// scripts for termexec.RunLoop
+
+func allowLoopValue(c byte) bool { return c != '=' && c != '\n' }
+
+// genLoopArgs draws the arguments of a rec-like command (after the command name) as
+// rendered text: positional values, named values from the observed pool, optional "--" tail.
+func genLoopArgs(rt *rapid.T, sb *strings.Builder, multi bool) {
+	put := func(text string) {
+		// separator: blanks, sometimes with a backslash-newline continuation
+		seps := []string{" ", "  ", "\t", " ", " \\\n ", " \\\n"}
+		k := 4
+		if multi {
+			k = 6
+		}
+		sb.WriteString(seps[hx.Uniform(rt, k, "lsep")])
+		a := Arg{Segs: Quote(text, hx.Uniform(rt, 2, "lstyle"))}
+		a.render(sb)
+	}
+	used := map[string]bool{}
+	for i, n := 0, rapid.IntRange(0, 4).Draw(rt, "largs"); i < n; i++ {
+		if hx.Chance(rt, 40, "lnamed") {
+			name := loopNamed[hx.Uniform(rt, len(loopNamed), "lname")]
+			if used[name] {
+				continue
+			}
+			used[name] = true
+			if name == "msg" && multi && hx.Chance(rt, 40, "lheredoc") {
+				sb.WriteString(" msg=<<EOT\n first line\nrec inside heredoc\nEOT")
+				continue
+			}
+			put(strings.Repeat("-", hx.Uniform(rt, 3, "ldash")) + name + "=" + string(genRun(rt, 0, 5, allowLoopValue)))
+			continue
+		}
+		v := genRun(rt, 0, 5, allowLoopValue)
+		if len(v) > 0 && v[0] == '-' {
+			v[0] = '+'
+		}
+		put(string(v))
+	}
+	if hx.Chance(rt, 15, "ltail") {
+		put("--")
+		for i, n := 0, rapid.IntRange(0, 2).Draw(rt, "ltailn"); i < n; i++ {
+			put(string(genRun(rt, 0, 4, allowLine)))
+		}
+	}
+}
+
+// genLoopLine draws one command-looking line (without the newline).
+func genLoopLine(rt *rapid.T, names []string) string { return genLoopLineM(rt, names, true) }
+
+func genLoopLineM(rt *rapid.T, names []string, multi bool) string {
+	var sb strings.Builder
+	sb.WriteString([]string{"", "", " ", "\t"}[hx.Uniform(rt, 4, "llead")])
+	sb.WriteString(names[hx.Uniform(rt, len(names), "lcmd")])
+	genLoopArgs(rt, &sb, multi)
+	sb.WriteString([]string{"", "", " "}[hx.Uniform(rt, 3, "ltrail")])
+	return sb.String()
+}
+
+// GenLoop draws a script: rec commands, take commands followed by payload that looks like
+// commands, blank lines, rarely a nested loop or an unknown command.
+func GenLoop(rt *rapid.T) LoopCase {
+	var sb strings.Builder
+	recs := []string{"rec", "r2", "rec"}
+	payloadCmds := []string{"rec", "r2", "boom", "take lines=1", "rec"}
+	n := rapid.IntRange(1, 7).Draw(rt, "litems")
+	for i := 0; i < n; i++ {
+		switch k := hx.Uniform(rt, 20, "litem"); {
+		case k < 8:
+			sb.WriteString(genLoopLine(rt, recs) + "\n")
+		case k < 11: // take lines=N + N payload lines (sometimes fewer than N are left)
+			c := 1 + hx.Uniform(rt, 3, "lnlines")
+			sb.WriteString(genLoopLine(rt, []string{"take lines=" + strconv.Itoa(c)}) + "\n")
+			for j := 0; j < c; j++ {
+				if hx.Chance(rt, 15, "lgarbage") {
+					sb.WriteString([]string{"\"unterminated", "x=<<E", "\\", ""}[hx.Uniform(rt, 4, "lg")] + "\n")
+				} else {
+					sb.WriteString(genLoopLineM(rt, payloadCmds, hx.Chance(rt, 20, "lpmulti")) + "\n")
+				}
+			}
+		case k < 13: // take bytes=K: whole lines, or a junk prefix of a line whose rest is a command
+			if rapid.Bool().Draw(rt, "lmid") {
+				junk := string(genRun(rt, 1, 6, allowLine))
+				sb.WriteString(genLoopLine(rt, []string{"take bytes=" + strconv.Itoa(len(junk))}) + "\n")
+				sb.WriteString(junk + genLoopLine(rt, recs) + "\n")
+			} else {
+				p := genLoopLine(rt, payloadCmds) + "\n"
+				if rapid.Bool().Draw(rt, "l2") {
+					p += genLoopLine(rt, payloadCmds) + "\n"
+				}
+				sb.WriteString(genLoopLine(rt, []string{"take bytes=" + strconv.Itoa(len(p))}) + "\n" + p)
+			}
+		case k < 16: // take cmd=1: the payload is one command read with ReadArguments
+			sb.WriteString(genLoopLine(rt, []string{"take cmd=1"}) + "\n")
+			sb.WriteString(genLoopLine(rt, payloadCmds) + "\n")
+		case k < 17:
+			sb.WriteString([]string{"", " ", "\t \t", "\\\n"}[hx.Uniform(rt, 4, "lblank")] + "\n")
+		case k < 19:
+			sb.WriteString("sub\n")
+		default:
+			if hx.Chance(rt, 40, "lunknown") {
+				sb.WriteString(genLoopLine(rt, []string{"boom", "recx", "\"\""}) + "\n")
+			} else {
+				sb.WriteString(genLoopLine(rt, recs) + "\n")
+			}
+		}
+	}
+	s := sb.String()
+	if hx.Chance(rt, 25, "lnofinalnl") {
+		s = strings.TrimSuffix(s, "\n")
+	}
+	return LoopCase{In: B(s)}
+}
